@@ -64,6 +64,7 @@ def _flatten(decls, out):
         elif k == "message":
             out.append({"d": "openMsg", "name": d["name"], "ext": bool(d["ext"]), "line": L})
             out[mark]["style"] = d.get("style", "unclear")
+            out[mark]["words"] = d.get("words", [])
             _flatten(d["body"], out)
             out.append({"d": "closeMsg", "line": d.get("_eline", 0)})
             mark = len(out) - 1
@@ -72,6 +73,7 @@ def _flatten(decls, out):
         elif k == "enum":
             out.append({"d": "openEnum", "name": d["name"], "n": d["n"], "line": L})
             out[mark]["style"] = d.get("style", "unclear")
+            out[mark]["words"] = d.get("words", [])
             _flatten(d["body"], out)
             out.append({"d": "closeEnum", "line": d.get("_eline", 0)})
             mark = len(out) - 1
@@ -80,6 +82,7 @@ def _flatten(decls, out):
         else:
             raise ValueError(k)
         out[mark].setdefault("style", d.get("style", "unclear"))
+        out[mark].setdefault("words", d.get("words", []))
     return out
 
 
@@ -112,6 +115,8 @@ def spec_program(prog, trad=False):
         if txt is not None:
             f["layout"] = layout_of(txt)
             f["indent_ok"] = bool(prog.get("_indent_ok", True))
+        f["prefix"] = prog.get("_prefix_words", {}).get(f["name"], [])
+        f["base"] = f["name"]
     return {"files": files, "main": names.index(prog["main"]) + 1, "trad": bool(trad)}
 
 
